@@ -359,7 +359,7 @@ def run(repo: Repo, rep, tier: str):
     rep.guarded(check_ratio_constants, repo, rep)
     rep.guarded(check_equity_sampling, repo, rep)
     rep.undecided_item("max drawdown / CAGR / Sharpe / Sortino / Calmar / Omega formulas on the daily return series (pandas pipeline not modelled); non-positivity of max drawdown")
-    rep.undecided_item("spot equity sample (free + reserved quote + market value of base) for several routes")
+    rep.undecided_item("spot equity: that Position.value / Order.value are the market value of the held base / the reserved quote (the sum over routes is decided)")
 
 
 CLAIM = {
@@ -370,7 +370,8 @@ CLAIM = {
             "percentage, average, extreme, expectancy and streak must equal its defining identity over the PnL sequence - symbolically "
             "where the metric is a sum / ratio, at witnesses for max / min. The equity series protocol (initial sample, daily guard "
             "`i != 0 and i % 1440 == 0`, final sample after terminate + flush) is decided by trace rules in both simulators and the "
-            "futures equity sample is wallet + open PnL symbolically. Ratio helpers default to a 365-day year. Not decided: the ratio "
-            "formulas on the pandas return series, spot equity across routes.",
+            "futures equity sample is wallet + open PnL symbolically (leverage-free); the spot sample, with Strategy.portfolio_value "
+            "interpreted for two routes sharing the wallet, is cash + value of all positions + reserved value of the active entry "
+            "orders of every route. Ratio helpers default to a 365-day year. Not decided: the ratio formulas on the pandas return series.",
     "note": "Trusted: pandas/numpy model for the used operations; interpreter semantics.",
 }
